@@ -11,7 +11,7 @@ from sa.flow import defs_reaching, reaching_defs
 from sa.model import contains, enclosing, execute_impl_funcs, superstep_funcs, template_classes
 from sa.variants import Variant, replace_once, sub_first, sub_once
 
-from .common import call_names, template_methods
+from .common import call_names, eval_bool, template_methods, vars_from_call
 
 ID = "C18"
 EXPLANATION = (
@@ -132,28 +132,7 @@ def run(ctx) -> None:
     rep.add("C18.R5", f"{bind.qname}:stores-the-object", ok, bind.loc(), "bind() stores the caller's objects themselves ({**old, **values})" if ok else "bind() transforms or copies the bound values")
 
     # ---- R6 ---------------------------------------------------------------------
-    from sa.pattern import solve
-
-    run_map = set(template_methods(db, "map"))
-    for q in ("runners.sync.executors.graph_node.SyncGraphNodeExecutor.__call__", "runners.async_.executors.graph_node.AsyncGraphNodeExecutor.__call__"):
-        f = db.func(q)
-        for c, cal in db.callees(f):
-            if cal.func not in run_map:
-                continue
-            a1 = c.args[1] if len(c.args) > 1 else None
-            passes_clone = any(k.arg == "clone" for k in c.keywords)
-            ok = False
-            if isinstance(a1, ast.Name):
-                for d in db.local_defs(f).get(a1.id, []):
-                    v = getattr(d, "value", None)
-                    if isinstance(v, ast.DictComp) and any(solve(["_K in _B and _V is _B[_K]"], i) or solve(["_K in _B", "_V is _B[_K]"], i) for i in v.generators[0].ifs):
-                        # _B must be the inner graph's bound mapping
-                        for nm, ds in db.local_defs(f).items():
-                            if any(isinstance(x, ast.Assign) and src(x.value).endswith(".inputs.bound") and ("node.graph" in src(x.value) or "node._graph" in src(x.value)) for x in ds) and any(isinstance(y, ast.Name) and y.id == nm for i in v.generators[0].ifs for y in ast.walk(i)):
-                                ok = True
-            if not passes_clone:
-                ok = True
-            rep.add("C18.R6", f"{f.qname}:map-inputs", ok, f"{f.module.rel}:{c.lineno}", "values that are the inner graph's own bindings are left out of the nested map's inputs (they are resolved by identity inside each item run)" if ok else "the nested map receives the inner graph's bound values as broadcast inputs together with the clone setting: clone=True deep-copies objects that were bound precisely to be shared")
+    check_nested_map_inputs(ctx, "C18.R6")
 
     # ---- R2 ---------------------------------------------------------------------
     ni = db.func("runners._shared.input_normalization.normalize_inputs")
@@ -273,6 +252,73 @@ TS = "src/hypergraph/runners/_shared/template_sync.py"
 IN = "src/hypergraph/runners/_shared/input_normalization.py"
 TY = "src/hypergraph/runners/_shared/types.py"
 SR = "src/hypergraph/runners/sync/runner.py"
+def check_nested_map_inputs(ctx, rule: str) -> None:
+    """The inputs a mapping GraphNode executor hands to the nested ``map``: every translated input is
+    forwarded unchanged, except exactly those whose value *is* the inner graph's own bound object
+    (those resolve by identity inside each item run and must not become clone-able broadcast values)."""
+    import itertools
+
+    db, rep = ctx.db, ctx.rep
+    run_map = set(template_methods(db, "map"))
+    for q in ("runners.sync.executors.graph_node.SyncGraphNodeExecutor.__call__", "runners.async_.executors.graph_node.AsyncGraphNodeExecutor.__call__"):
+        f = db.func(q)
+        translated = set(vars_from_call(db, f, {"map_inputs_to_func_params"}))
+        bound_vars = {nm for nm, ds in db.local_defs(f).items() if any(isinstance(x, ast.Assign) and src(x.value).endswith(".inputs.bound") and ("node.graph" in src(x.value) or "node._graph" in src(x.value)) for x in ds)}
+        n_sites = 0
+        for c, cal in db.callees(f):
+            if cal.func not in run_map:
+                continue
+            n_sites += 1
+            a1 = c.args[1] if len(c.args) > 1 else None
+            ok, why = False, "the nested map's input mapping is not a filtered copy of the translated inputs"
+            if isinstance(a1, ast.Name) and a1.id in translated:
+                ok, why = not any(k.arg == "clone" for k in c.keywords), "translated inputs are forwarded unfiltered (allowed only when no clone setting is passed)"
+                if not ok:
+                    why = "the nested map receives the inner graph's bound values as broadcast inputs together with the clone setting: clone=True deep-copies objects that were bound precisely to be shared"
+            elif isinstance(a1, ast.Name):
+                for d in db.local_defs(f).get(a1.id, []):
+                    v = getattr(d, "value", None)
+                    if not (isinstance(v, ast.DictComp) and len(v.generators) == 1):
+                        continue
+                    g = v.generators[0]
+                    it = g.iter
+                    if not (isinstance(it, ast.Call) and isinstance(it.func, ast.Attribute) and it.func.attr == "items" and isinstance(it.func.value, ast.Name) and it.func.value.id in translated):
+                        why = f"'{src(it)}' is not the translated (inner-name) input mapping: the filter would compare outer names with the inner graph's bound names"
+                        continue
+                    if not (isinstance(g.target, ast.Tuple) and len(g.target.elts) == 2 and all(isinstance(e, ast.Name) for e in g.target.elts)):
+                        continue
+                    kn, vn = g.target.elts[0].id, g.target.elts[1].id
+                    if not (src(v.key) == kn and src(v.value) == vn):
+                        why = "keys/values are transformed on the way to the nested map"
+                        continue
+                    if not bound_vars:
+                        why = "the inner graph's bound mapping is not consulted"
+                        continue
+                    good = False
+                    for b in bound_vars:
+                        a_in, a_is = f"{kn} in {b}", f"{vn} is {b}[{kn}]"
+                        table = {}
+                        for x, y in itertools.product((True, False), repeat=2):
+                            r = True
+                            for cond in g.ifs:
+                                e = eval_bool(cond, {a_in: x, a_is: y})
+                                r = None if (e is None or r is None) else (r and e)
+                            table[(x, y)] = r
+                        if all(table[(x, y)] is (not (x and y)) for x, y in table):
+                            good = True
+                        elif None not in table.values():
+                            dropped = [k_ for k_, r in table.items() if r is False and not (k_[0] and k_[1])]
+                            if dropped:
+                                why = f"an input is dropped although it is not the inner graph's own bound object (filter '{' and '.join(src(i) for i in g.ifs)}'): a value supplied from outside for an inner-bound parameter never reaches the items"
+                            else:
+                                why = "the inner graph's own bound objects are forwarded as broadcast values (subject to clone)"
+                    if good:
+                        ok, why = True, "every translated input is forwarded unchanged except values that are the inner graph's own bound objects"
+            rep.add(rule, f"{f.qname}:map-inputs", ok, f"{f.module.rel}:{c.lineno}", why)
+        if n_sites == 0:
+            raise AnalysisError(f"{q}: nested map call not found")
+
+
 VARIANTS = [
     Variant("default-not-copied-for-graphnode", HP, replace_once("    if source == ValueSource.DEFAULT:\n        return _safe_deepcopy(value, param_name=param)", "    if source == ValueSource.DEFAULT and not hasattr(node, \"_graph\"):\n        return _safe_deepcopy(value, param_name=param)"), {"C18.R1"}),
     Variant("bound-copied-too", HP, replace_once("    if source == ValueSource.DEFAULT:\n        return _safe_deepcopy(value, param_name=param)", "    if source in (ValueSource.DEFAULT, ValueSource.BOUND):\n        return _safe_deepcopy(value, param_name=param)"), {"C18.R1"}),
